@@ -546,7 +546,7 @@ func c05PeerCases(thorough bool) []c05PeerCase {
 								}
 								tcases := []int{1}
 								if p == PGRPCWeb {
-									tcases = []int{0, 1, 2}
+									tcases = []int{0, 1, 2, 3, 4}
 								}
 								for mask := 0; mask < 1<<len(bits); mask++ {
 									vary := 0
